@@ -236,6 +236,9 @@ class Impl:
         elif kind == "mut":
             _, i, cls, meth, bypass, eff = ev
             self.mutate(self.nodes[i], meth, bypass, eff)
+        elif kind == "mutp":
+            _, i, path, cls, meth, bypass, eff = ev
+            self.mutate(self.nodes[i], meth, bypass, eff, prefix=tuple(path))
         else:
             raise ValueError(kind)
 
@@ -256,8 +259,10 @@ class Impl:
                 self.leaf_no[id(v)] = no
                 self.keep.append(v)
 
-    def mutate(self, td, meth, bypass, eff):
+    def mutate(self, td, meth, bypass, eff, prefix=()):
         kind = eff[0]
+        if prefix:
+            return self.mutate_nested(td, meth, eff, prefix)
         if kind == "addleaf":
             _, k, no = eff
             t = torch.full(self.bs, 0.0)
@@ -317,6 +322,43 @@ class Skip(Exception):
     pass
 
 
+def _mutate_nested(self, td, meth, eff, prefix):
+    """the same effects through a nested key given to an ancestor"""
+    kind = eff[0]
+    key = lambda k: prefix + (k,)
+    if kind == "addleaf":
+        t = torch.full(self.bs, 0.0)
+        self.leaf_no[id(t)] = eff[2]
+        self.keep.append(t)
+        if meth == "set":
+            td.set(key(eff[1]), t)
+        else:
+            td[key(eff[1])] = t
+    elif kind == "del":
+        if meth == "del_":
+            td.del_(key(eff[1]))
+        elif meth == "__delitem__":
+            del td[key(eff[1])]
+        else:
+            td.pop(key(eff[1]))
+    elif kind == "rename":
+        td.rename_key_(key(eff[1]), key(eff[2]))
+    elif kind == "drop":
+        td.exclude(*[key(k) for k in eff[1:]], inplace=True)
+    elif kind == "write":
+        tgt = td
+        for k in prefix:
+            tgt = tgt._tensordict[k]
+        cur = tgt._tensordict.get(eff[1])
+        new = torch.full(self.bs, float(int(cur.flatten()[0].item()) + 1 if cur is not None else 1))
+        td.set_(key(eff[1]), new)
+    else:
+        raise ValueError(kind)
+
+
+Impl.mutate_nested = _mutate_nested
+
+
 # --------------------------------------------------------------------------- generation
 def ev_sx(ev):
     """event -> s-expression text for the Lean driver"""
@@ -327,6 +369,8 @@ def ev_sx(ev):
         return sx("lazy", list(ev[1]), bool(ev[2]))
     if k == "mut":
         return sx("mut", ev[1], ev[2], ev[3], bool(ev[4]), list(ev[5]))
+    if k == "mutp":
+        return sx("mutp", ev[1], list(ev[2]), ev[3], ev[4], bool(ev[5]), list(ev[6]))
     if k == "exit":
         return "(exit)"
     return sx(k, ev[1])
@@ -381,8 +425,8 @@ def gen_event(rng, impl: Impl, obj_counter):
         i = rng.choice(live)
         nodes = impl.reach(i)
         ok = all(not n.is_locked for n in nodes) and not any(id(n) in impl.converted for n in nodes) and not has_tc(i)
-        if ok and not impl.is_lazy(impl.nodes[i]):
-            kind = "memmap" if rng.random() < 0.6 else "share"
+        if ok:
+            kind = "memmap" if (rng.random() < 0.6 and not impl.is_lazy(impl.nodes[i])) else "share"
             if kind == "memmap" and not impl.is_tree(i):
                 kind = "share"       # memmap_ maps every path to a file: a node reachable twice cannot be mapped twice
             for n in nodes:
@@ -392,6 +436,33 @@ def gen_event(rng, impl: Impl, obj_counter):
     # mutators
     i = rng.choice(live)
     n = impl.nodes[i]
+    if not impl.is_tc(n) and not impl.is_lazy(n) and rng.random() < 0.3:
+        # through a nested key: walk one or two levels of plain tensordicts below i
+        path, cur = [], n
+        for _ in range(rng.randint(1, 2)):
+            nxt = [(k, v) for k, v in impl.kids(cur) if not impl.is_lazy(v) and not impl.is_tc(v)]
+            if not nxt:
+                break
+            k, cur = rng.choice(nxt)
+            path.append(k)
+        if path:
+            tkeys_l = [k for k, v in cur._tensordict.items() if isinstance(v, torch.Tensor)]
+            tkeys = list(cur._tensordict.keys())
+            q = rng.random()
+            if q < 0.25:
+                obj_counter[0] += 1
+                return ("mutp", i, path, "TensorDict", rng.choice(["set", "__setitem__"]), False, ("addleaf", rng.choice(LEAF_KEYS), obj_counter[0]))
+            if q < 0.5 and tkeys:
+                return ("mutp", i, path, "TensorDict", rng.choice(["del_", "__delitem__", "pop"]), False, ("del", rng.choice(tkeys)))
+            if q < 0.7:
+                return ("mutp", i, path, "TensorDict", "exclude", True, ("drop", rng.choice(tkeys or LEAF_KEYS)))
+            if q < 0.85 and tkeys:
+                k = rng.choice(tkeys)
+                # (old == new returns early on the object the call is made on: not a call on the nested node)
+                k2 = rng.choice([x for x in (KID_KEYS if k in KID_KEYS else LEAF_KEYS) if x != k])
+                return ("mutp", i, path, "TensorDict", "rename_key_", False, ("rename", k, k2))
+            if tkeys_l:
+                return ("mutp", i, path, "TensorDict", "set_", False, ("write", rng.choice(tkeys_l)))
     if impl.is_tc(n):
         # the fields of a tensorclass are fixed: value writes only
         keys_l = [k for k, v in impl.entries(n) if isinstance(v, torch.Tensor)]
@@ -541,6 +612,12 @@ def sx_to_ev(text: str):
         else:
             eff = (eff[0],) + tuple(str(x) for x in p[5][1:])
         return ("mut", p[1], p[2], p[3], b(p[4]), eff)
+    if k == "mutp":
+        e = p[6]
+        eff = (e[0],) + tuple(str(x) if not isinstance(x, int) or e[0] not in ("addleaf",) or j != 1 else x for j, x in enumerate(e[1:]))
+        if e[0] == "addleaf":
+            eff = ("addleaf", str(e[1]), e[2])
+        return ("mutp", p[1], [str(x) for x in p[2]], p[3], p[4], b(p[5]), eff)
     if k == "exit":
         return ("exit",)
     return (k, p[1])
